@@ -361,3 +361,45 @@ Proof.
 Qed.
 
 End BlockKernelsProofs.
+
+(* ------------------------------------------------------------------ *)
+(* reinterpret_as_rhs round trip *)
+Section FlatRoundTrip.
+Variable S0 : Scalar.
+Variable b : nat.
+Local Notation B := (BlockS S0 b).
+
+Lemma firstn_plus {X} (l : list X) n m : firstn (n + m) l = firstn n l ++ firstn m (skipn n l).
+Proof.
+  revert l; induction n as [|n IH]; intro l; [reflexivity|].
+  destruct l as [|a l]; simpl; [rewrite firstn_nil; reflexivity|]. f_equal. apply IH.
+Qed.
+
+Lemma flat_chunks (x : vec S0) q :
+  flat_map (fun I => firstn b (skipn (I * b) x)) (seq 0 q) = firstn (q * b) x.
+Proof.
+  induction q as [|q IH]; [reflexivity|].
+  rewrite seq_S, flat_map_app, IH. simpl flat_map. rewrite app_nil_r. simpl Nat.add.
+  replace (Datatypes.S q * b)%nat with (q * b + b)%nat by lia. symmetry. apply firstn_plus.
+Qed.
+
+Lemma blk_col0_col (v : vec S0) : length v = b -> blk_col0 (blk_col S0 b v) = v.
+Proof.
+  intro Hv. unfold blk_col0. apply (list_ext _ _ s0).
+  - rewrite tabulate_length. symmetry; exact Hv.
+  - intros i Hi. rewrite tabulate_length in Hi. rewrite tabulate_nth by exact Hi.
+    destruct (Nat.eq_dec b 0) as [->|Hb]; [lia|].
+    rewrite (blk_get_col S0 b) by lia. reflexivity.
+Qed.
+
+(* flattening the block view of a scalar vector whose length is a multiple of b gives the vector back *)
+Theorem flat_of_bvec_of_flat (x : vec S0) : (length x / b * b)%nat = length x ->
+  flat_of_bvec S0 b (bvec_of_flat S0 b x) = x.
+Proof.
+  intro Hx. unfold flat_of_bvec, bvec_of_flat. rewrite flat_map_concat_map, map_map.
+  rewrite (map_ext_in _ (fun I => firstn b (skipn (I * b) x))).
+  - rewrite <- flat_map_concat_map, flat_chunks, Hx. apply firstn_all.
+  - intros I HI. apply in_seq in HI. apply blk_col0_col.
+    rewrite firstn_length, skipn_length. nia.
+Qed.
+End FlatRoundTrip.
